@@ -155,6 +155,40 @@ def explore(res, rng, n):
                      sig=('C10:coptFORM-unsigned-beta' if abs((1 - pf2) - q) <= 1e-4 else None))
 
 
+def config_runs(res, rng):
+    """the global configuration (digits for aggregated ranges, tolerances) has nothing to do with reliability: with globalConfig.atol /
+    rtol changed, FORM on a linear-Gaussian problem whose correlation needs four decimals still returns the exact index"""
+    core.import_impl()
+    import numpy as np
+    from scipy import stats
+    from ffpack import rrm
+    from ffpack.config import globalConfig
+    for rho, digits in ((0.3849, 2), (-0.2751, 1), (0.6123, 3)):
+        c = [1.0, -2.0]
+        mus, sig = [4.0, 1.0], [1.0, 0.5]
+        R = [[1.0, rho], [rho, 1.0]]
+        var = (c[0] * sig[0]) ** 2 + (c[1] * sig[1]) ** 2 + 2 * rho * c[0] * sig[0] * c[1] * sig[1]
+        exact = (c[0] * mus[0] + c[1] * mus[1]) / math.sqrt(var)
+        g = lambda X: c[0] * X[0] + c[1] * X[1]
+        dg = [lambda X: c[0], lambda X: c[1]]
+        dists = [stats.norm(m, s_) for m, s_ in zip(mus, sig)]
+        old = (globalConfig.atol, globalConfig.rtol)
+        res.evaluations += 1
+        res.stat('form_under_changed_global_config')
+        case = {'c': c, 'mus': mus, 'sigmas': sig, 'rho': rho, 'globalConfig.atol': digits, 'exact_beta': exact}
+        try:
+            globalConfig.atol, globalConfig.rtol = digits, digits
+            outs = {'hlrf': rrm.hlrfFORM(2, g, dg, dists, R)[0], 'copt': rrm.coptFORM(2, g, dists, R)[0]}
+        except Exception as e:  # noqa
+            fail(res, 'FORM raised on a linear-Gaussian problem after globalConfig.atol / rtol were changed', case, repr(e)[:200])
+            continue
+        finally:
+            globalConfig.atol, globalConfig.rtol = old
+        for nm, b in outs.items():
+            if abs(b - exact) > (1e-6 if nm == 'hlrf' else 2e-4) * (1 + abs(exact)):
+                fail(res, f'{nm}: beta differs from E[g]/sd[g] after globalConfig.atol / rtol were changed', case, {'beta': float(b), 'exact': exact})
+
+
 def recorded_limits(res):
     """two recorded limitations: (a) the Nataf quadrature at |rho| >= 0.98 makes FORM inexact on linear-Gaussian problems;
     (b) the numerical gradient uses an absolute step 1e-6, below the float spacing of Pa-sized variables"""
@@ -200,6 +234,7 @@ def run(tier, seed):
     n = 12 if tier == 'quick' else 300
     explore(res, random.Random(seed), n)
     recorded_limits(res)
+    config_runs(res, random.Random(seed + 3))
     res.traces = res.evaluations
     # executable Lean model of the HL-RF loop / mvalFOSM (Model/Form.lean) against the implementation, iterate by iterate
     formmodel.form_stream(res, random.Random(seed + 7), 40 if tier == 'quick' else 1500)
